@@ -236,9 +236,24 @@ func (m *MockTableHandler) All() []interface{} {
 	data := m.db.data[m.name]
 	result := make([]interface{}, len(data))
 	for i, v := range data {
-		result[i] = v
+		result[i] = copyRecord(v)
 	}
 	return result
+}
+
+// copyRecord returns a copy of a stored record. Records are handed to
+// request code, which may assign to their fields (`rec.count = rec.count + 1`)
+// while other requests read the table: the stored map itself must only ever
+// be touched under the database lock.
+func copyRecord(record map[string]interface{}) map[string]interface{} {
+	if record == nil {
+		return nil
+	}
+	out := make(map[string]interface{}, len(record))
+	for k, v := range record {
+		out[k] = v
+	}
+	return out
 }
 
 // sameID reports whether a stored record id and a lookup id identify the same
@@ -276,7 +291,7 @@ func (m *MockTableHandler) Get(id interface{}) interface{} {
 
 	for _, record := range m.db.data[m.name] {
 		if sameID(record["id"], id) {
-			return record
+			return copyRecord(record)
 		}
 	}
 	return nil
@@ -292,7 +307,7 @@ func (m *MockTableHandler) Create(data map[string]interface{}) map[string]interf
 		data["id"] = int64(len(m.db.data[m.name]) + 1)
 	}
 
-	m.db.data[m.name] = append(m.db.data[m.name], data)
+	m.db.data[m.name] = append(m.db.data[m.name], copyRecord(data))
 	return data
 }
 
@@ -308,7 +323,7 @@ func (m *MockTableHandler) Update(id interface{}, data map[string]interface{}) m
 				record[k] = v
 			}
 			m.db.data[m.name][i] = record
-			return record
+			return copyRecord(record)
 		}
 	}
 	return nil
@@ -364,7 +379,7 @@ func (m *MockTableHandler) Filter(column string, value interface{}) []interface{
 	result := make([]interface{}, 0)
 	for _, record := range m.db.data[m.name] {
 		if valuesEqual(record[column], value) {
-			result = append(result, record)
+			result = append(result, copyRecord(record))
 		}
 	}
 	return result
